@@ -18,6 +18,7 @@ import (
 
 	coraza "github.com/corazawaf/coraza/v3"
 	"github.com/corazawaf/coraza/v3/experimental/plugins/plugintypes"
+	"github.com/corazawaf/coraza/v3/internal/corazawaf"
 	"github.com/corazawaf/coraza/v3/internal/operators"
 	"github.com/corazawaf/coraza/v3/internal/transformations"
 	"github.com/corazawaf/coraza/v3/types"
@@ -31,7 +32,7 @@ func init() { vh.Register("C01", Run) }
 // ---------------------------------------------------------------------------------------
 
 type RxPat struct {
-	Class  string `json:"class,omitempty"` // nondigits (^\\D+$) | digits (^\\d+$)
+	Class  string `json:"class,omitempty"` // nondigits (^\\D+$) | digits (^\\d+$) | nonspace (^\\S+$)
 	Any    bool   `json:"any,omitempty"`
 	AL     bool   `json:"al,omitempty"`
 	AR     bool   `json:"ar,omitempty"`
@@ -185,6 +186,8 @@ func (p *RxPat) src() string {
 		return `^\D+$`
 	case "digits":
 		return `^\d+$`
+	case "nonspace":
+		return `^\S+$`
 	}
 	if p.Any {
 		return "."
@@ -204,6 +207,8 @@ func (p *RxPat) coq() string {
 		return "RxNonDigits"
 	case "digits":
 		return "RxDigits"
+	case "nonspace":
+		return "RxNonSpace"
 	}
 	if p.Any {
 		return "RxAny"
@@ -487,7 +492,7 @@ func obsCoq(obs []ObsRule) string {
 
 var keyAlpha = []string{"a", "A", "b", "", "a-b", "a", "A", "b", "B", "ab", "12", "/^a/"}
 var selKeyAlpha = []string{"a", "A", "b", "a-b", "B", "ab", "A-B", "Ab"}
-var hdrKeyAlpha = []string{"a", "A", "b", "a-b", "X-A", "x-a", "B", "12", "X-Id"}
+var hdrKeyAlpha = []string{"a", "A", "b", "a-b", "X-A", "x-a", "B", "12", "X-Id", "a b"}
 var valAlpha = []string{"x", "X", "", "a b", " x ", "%41", "x\x00y", "\xff", "1", "10", "-1", "abc", "ABC", "+5", "  ", "YQ==", "61", "a%20b", "x/*c*/y", "\\x41", "\xc3\xa9"}
 var cookieValAlpha = []string{"x", "X", "", "a b", "%41", "\xff", "1", "10", "abc", "ABC", "YQ=="}
 var argAlpha = []string{"x", "X", "a", "1", "0", "x", "41", "A", "a b", "abc", "10", "-1", "%41", "b", "5", "2", "78"}
@@ -536,6 +541,8 @@ func genRx(r *rand.Rand) *RxPat {
 		return &RxPat{Class: "nondigits"}
 	case 2:
 		return &RxPat{Class: "digits"}
+	case 3:
+		return &RxPat{Class: "nonspace"}
 	}
 	return &RxPat{AL: r.Intn(2) == 0, AR: r.Intn(3) == 0, LitHex: hx(pick(r, litAlpha))}
 }
@@ -1084,7 +1091,7 @@ func (rn *runner) addRx(p *RxPat, k string) {
 		return
 	}
 	res := re.MatchString(k)
-	low := strings.ToLower(p.src())
+	low := corazawaf.VerifC01LowerRegexSource(p.src()) // what AddVariable compiles for a case-insensitive collection
 	rn.res.Evaluations++
 	rn.push(fmt.Sprintf("CRx %s %s %s %s %s", p.coq(), vh.HxS(p.src()), vh.HxS(low), vh.HxS(k), vh.Bool(res)), Case{Kind: "rx", Rx: p, KeyHex: hx(k), Res: res}, nil)
 	rn.res.InputDistribution["rx_validation"]++
@@ -1166,10 +1173,11 @@ func Run(cfg vh.Config) (*vh.Result, error) {
 				}
 			}
 		}
-		for _, k := range append([]string{"12", "1a", "a1", "x-id", "X-Id", "0", "9", "/", ":"}, rxKeys...) {
+		for _, k := range append([]string{"12", "1a", "a1", "x-id", "X-Id", "0", "9", "/", ":", "a b", " ", "a\tb", "A\fB", "\r"}, rxKeys...) {
 			rn.addRx(&RxPat{Any: true}, k)
 			rn.addRx(&RxPat{Class: "nondigits"}, k)
 			rn.addRx(&RxPat{Class: "digits"}, k)
+			rn.addRx(&RxPat{Class: "nonspace"}, k)
 		}
 		opVals := append([]string{"+1", "-0", "007", " 1", "1 ", "9223372036854775807", "9223372036854775808", "-9223372036854775808", "-9223372036854775809", "99999999999999999999", "+", "-", "1_0", "0x10", "xa", "ax", "axb",
 			"99999999999999999999x", "18446744073709551615x", "18446744073709551616x", "18446744073709551615", "18446744073709551616", "-99999999999999999999x",
